@@ -90,25 +90,26 @@ Theorem C06_matches_get : forall now s ws readTs o i,
 Proof. exact txn_scan_fwd_get. Qed.
 Print Assumptions C06_matches_get.
 
-(** The model of Txn.Get (pending write, then LSM.Get at readTs with its
-    [Value == nil && Meta == 0] test) returns that same point read, except in
-    the class of finding C06-G1: the newest visible write has an EMPTY value
-    and no meta bits (then a table hit comes back as nil and is reported
-    not-found, refuted below). *)
-Theorem C06_txn_get_partial : forall now s ws readTs u,
+(** The model of Txn.Get (pending write, then LSM.Get at readTs, tombstones
+    and expired entries not found) returns that same point read of the
+    snapshot, for every key: scans and point reads agree. *)
+Theorem C06_txn_get : forall now s ws readTs u,
   iter_inv s -> content_ok s ws -> seq_functional ws ->
-  (forall x, latest_at ws (sbase u) readTs = Some x -> nonempty (r_val x) = true \/ r_meta x <> 0) ->
-  txn_get now s readTs [] (sbase u) = spec_get now ws [] readTs u.
+  txn_get current now s readTs [] (sbase u) = spec_get now ws [] readTs u.
 Proof. exact txn_get_spec. Qed.
-Print Assumptions C06_txn_get_partial.
+Print Assumptions C06_txn_get.
 
-Theorem C06_txn_get_refuted :
-  tier_inv_b s_g1 = true /\ txn_get 100 s_g1 1 [] (sbase [Byte.x61]) = None /\
+(** Refuted on the code as found (C06-G1, repaired since): a committed EMPTY
+    value served by a table came back as a nil slice and Txn.Get read
+    [Value == nil && Meta == 0] as not found, while the scan listed the key. *)
+Theorem C06_txn_get_legacy_refuted :
+  tier_inv_b s_g1 = true /\ txn_get legacy 100 s_g1 1 [] (sbase [Byte.x61]) = None /\
   spec_get 100 w_g1 [] 1 [Byte.x61] = Some [] /\
+  txn_get current 100 s_g1 1 [] (sbase [Byte.x61]) = Some [] /\
   map item_sitem (txn_list current 100 s_g1 1 [] (plain_opts false false) ARewind)
   = [ {| s_key := [Byte.x61]; s_ver := 1; s_val := [] |} ].
 Proof. exact g1_refuted. Qed.
-Print Assumptions C06_txn_get_refuted.
+Print Assumptions C06_txn_get_legacy_refuted.
 
 (** The hypotheses are satisfiable on a state with a memtable, a sealed
     memtable and an L0 table, a tombstone shadowing an older version, and
